@@ -46,6 +46,25 @@ func (c17) Info() core.Info {
 	}
 }
 
+// c17Decorate puts `before` directly in front of and `after` directly behind
+// every word (name, keyword, number) of q.
+func c17Decorate(q, before, after string) string {
+	toks, _, _ := refLex(q)
+	var b strings.Builder
+	at := 0
+	for _, t := range toks {
+		switch t.kind {
+		case "STR", "BQ", "OP", "(", ")", "[", "]", "SEP", "SEMI":
+			continue
+		}
+		b.WriteString(q[at:t.pos])
+		b.WriteString(before + q[t.pos:t.pos+len(t.text)] + after)
+		at = t.pos + len(t.text)
+	}
+	b.WriteString(q[at:])
+	return b.String()
+}
+
 func c17Corpus() []string {
 	fill := func(n int) string {
 		if n < 0 {
@@ -81,6 +100,12 @@ func c17Corpus() []string {
 		"select key where value between 'b' and 'a'",
 		"select key, l2_distance(list(1, 2), split(value, ',')) where true",
 		"select key,\tvalue where\tkey ^= 'k' &\tint(value) > 1 order by\tkey desc",
+		// white space the splitter does not know, of one, two and three bytes,
+		// directly before and after the words (it belongs to no token)
+		c17Decorate("select key, int(value) + 1 as n where key in ('k1', 'k2') & is_int(value) order by n desc limit 1, 2", "\u00a0", ""),
+		c17Decorate("select key, upper(value) where key ^= 'k' & strlen(value) > 1", "\u3000", "\f"),
+		c17Decorate("delete where key between 'a' and 'b' & value != 'x' limit 3", "\u00a0\u00a0", "\u0085"),
+		c17Decorate("put ('k1', upper('v' + key))", "\v", "\u3000"),
 		long(30), long(69), long(70), long(71), long(150),
 		long2(80), long2(150),
 	}
